@@ -234,6 +234,21 @@ def lib_bytes1(ex, b):
 def _m_pwrite(ex, args, kw):
     fd, data, off = args
     l = ex.inputs["self"]
+    if isinstance(ex.inputs.get("fs"), Obj) and "others_wrote" in ex.inputs["fs"].fields:
+        # LockFile.__init__ (creation of the shared file): a positioned write
+        # overwrites [off, off + len(data))
+        fs = _fs(ex)
+        _others_may_write(ex)
+        from vc.pyvc import ops
+        n = ops.b_len(lift_b(data))
+        o = lift_int(off)
+        pos = lift_int(fs.fields["others_pos"])
+        ex.check("LockFile.__init__.guarantee[initialising the file keeps the counters others stored]",
+                 mk_bool(z3.Not(z3.And(lift_bool(fs.fields["others_wrote"]), pos >= o, pos < o + n))),
+                 "writing the initial contents must not overwrite a counter another participant stored "
+                 "after the file appeared (os.pwrite at offset o overwrites [o, o + len))")
+        fs.fields["length"] = Sym(z3.If(o + n > lift_int(fs.fields["length"]), o + n, lift_int(fs.fields["length"])), INT)
+        return Sym(n, INT)
     lf = l.fields["lock_file"]
     ex.check("resource_invariant[the counter byte is written only by the lock holder]",
              lift_bool(l.fields["g_lockf"]),
